@@ -349,6 +349,8 @@ func DNSCaching(ttl time.Duration) func(*Attacker) {
 				}()
 			}
 
+			// rand.Rand isn't safe for concurrent use and dials happen concurrently.
+			var rngMu sync.Mutex
 			rng := rand.New(rand.NewSource(time.Now().UnixNano()))
 
 			tr.DialContext = func(ctx context.Context, network, addr string) (conn net.Conn, err error) {
@@ -373,7 +375,9 @@ func DNSCaching(ttl time.Duration) func(*Attacker) {
 				// Pick a random IP from each IP family and dial each concurrently.
 				// The first that succeeds wins, the other gets canceled.
 
+				rngMu.Lock()
 				rng.Shuffle(len(ips), func(i, j int) { ips[i], ips[j] = ips[j], ips[i] })
+				rngMu.Unlock()
 
 				ips = firstOfEachIPFamily(ips)
 
